@@ -105,7 +105,7 @@ impl<IO> tokio_native_tls::TlsStream<IO> {
 impl Acceptor {
 //@extract file=actix-tls/src/accept/native_tls.rs item="impl Acceptor / fn new" ret=r props=C18 name=native_tls::Acceptor::new
 //@spec
-    ensures r.handshake_timeout.ns() == 3 * 1_000_000_000,   // [C18] default handshake timeout: 3 s
+    ensures r.handshake_timeout.ns() == default_hs_timeout_ns(),   // [C18] the crate default (its VALUE, 3 s today, is not part of the property)
 //@end
 //@extract file=actix-tls/src/accept/native_tls.rs item="impl Acceptor / fn set_handshake_timeout" ret=r props=C18 name=native_tls::Acceptor::set_handshake_timeout
 //@spec
